@@ -316,3 +316,15 @@ def coverage(ctx, plans, results):
         "simulated_time_covered": "none: no clock is read on any path this property depends on",
         "distinct_interleavings_measure": "distinct abstract traces (see rule): %d" % len(abstracts),
     }
+
+
+class Cov:
+    def __init__(self, ctx):
+        self.ctx, self.plans, self.results = ctx, [], []
+
+    def add(self, plan, result):
+        self.plans.append(plan)
+        self.results.append(result)
+
+    def finish(self):
+        return coverage(self.ctx, self.plans, self.results)
